@@ -120,6 +120,7 @@ pub assume_specification[ <Bytes as Clone>::clone ](s: &Bytes) -> (r: Bytes)
 pub assume_specification[ <Bytes as std::ops::Deref>::deref ](s: &Bytes) -> (r: &[u8])
     ensures r@ == s.rem();
 
+pub uninterp spec fn string_bytes(s: &String) -> Seq<u8>;
 // ------------------------------------------------------------------ FastStr (A4)
 pub assume_specification[ FastStr::len ](s: &FastStr) -> (r: usize)
     ensures r == s.bview().len();
@@ -129,6 +130,11 @@ pub assume_specification[ <FastStr as AsRef<[u8]>>::as_ref ](s: &FastStr) -> (r:
     ensures r@ == s.bview();
 pub assume_specification[ FastStr::from_bytes_unchecked ](b: Bytes) -> (r: FastStr)
     ensures r.bview() == b.rem();
+
+pub assume_specification[ FastStr::from_string ](s: String) -> (r: FastStr)
+    ensures r.bview() == string_bytes(&s);
+pub assume_specification[ <Bytes as From<Vec<u8>>>::from ](v: Vec<u8>) -> (r: Bytes)
+    ensures r.rem() == v@;
 
 // ------------------------------------------------------------------ LinkedBytes (A4)
 pub assume_specification[ LinkedBytes::bytes_mut ](s: &mut LinkedBytes) -> (r: &mut BytesMut)
@@ -241,6 +247,36 @@ pub assume_specification[ f64::to_bits ](d: f64) -> (r: u64) ensures r == f64_bi
 pub assume_specification[ f64::from_bits ](b: u64) -> (r: f64) ensures f64_bits(r) == b;
 pub assume_specification[ f32::to_bits ](d: f32) -> (r: u32) ensures r == f32_bits(d);
 pub assume_specification[ f32::from_bits ](b: u32) -> (r: f32) ensures f32_bits(r) == b;
+
+// ------------------------------------------------------------------ allocation (D17)
+/// D17: `vec![0; n]` is redirected to this wrapper.  Documented panic of the allocation: capacity
+/// overflow when n > isize::MAX.  (The std `vec!` expansion is `alloc::vec::from_elem`.)
+#[verifier::external_body]
+pub fn valloc_zeroed(n: usize) -> (r: Vec<u8>)
+    requires n <= isize::MAX as usize,
+    ensures r@.len() == n, forall|i: int| 0 <= i < n ==> r@[i] == 0u8,
+{ vec![0; n] }
+/// D17b: same, for call sites where the bytes to be read are already in memory: the allocation must
+/// be dominated by the number of input bytes still available (`avail` is `self.remaining()` there):
+/// "never requests memory out of proportion to the input length" (C09)
+#[verifier::external_body]
+pub fn valloc_zeroed_within(n: usize, avail: usize) -> (r: Vec<u8>)
+    requires n <= avail, n <= isize::MAX as usize,
+    ensures r@.len() == n, forall|i: int| 0 <= i < n ==> r@[i] == 0u8,
+{ vec![0; n] }
+/// D17c: for readers of a stream, whose remaining length is not observable at run time, the
+/// availability bound is passed as a ghost argument (`avail` = bytes the stream will still deliver)
+#[verifier::external_body]
+pub fn valloc_zeroed_avail(n: usize, Ghost(avail): Ghost<nat>) -> (r: Vec<u8>)
+    requires n <= avail, n <= isize::MAX as usize,
+    ensures r@.len() == n, forall|i: int| 0 <= i < n ==> r@[i] == 0u8,
+{ vec![0; n] }
+/// `String::from_utf8_unchecked(v)`: the bytes of the string are v (UTF-8 validity is the caller's
+/// obligation in the source and is not modelled)
+#[verifier::external_body]
+pub fn vstring_from_utf8_unchecked(v: Vec<u8>) -> (r: String)
+    ensures string_bytes(&r) == v@,
+{ unsafe { String::from_utf8_unchecked(v) } }
 
 // ------------------------------------------------------------------ rewrite stubs (D2, D11, D12)
 /// D2: `format!(..)`, `"..".to_string()` -- the text of a message is not modelled
